@@ -33,8 +33,14 @@ const BENIGN: [&str; 8] = ["Migros Zurich", "Jiro Okane", "OKANE BANK ATM", "Coo
 /// (text, tag)
 fn adv_text(r: &mut Rng) -> (String, &'static str) {
     let b = r.pick(&BENIGN).to_string();
-    match r.below(30) {
+    match r.below(36) {
         0..=5 => (b, "benign"),
+        30 => (format!("2020/01/01 {}", b), "date_like"),
+        31 => (format!("= {} CHF @ 3", r.below(100)), "punct"),
+        32 => (format!("{} (", b), "punct"),
+        33 => (format!("{}:{}", b, r.below(10)), "punct"),
+        34 => (format!("#{} |{}%", r.below(100), b), "punct"),
+        35 => (format!("{}\u{2003}{}", b, r.pick(&BENIGN)), "non_ascii"),
         6 => (format!("{}; {}", b, r.pick(&BENIGN)), "semicolon"),
         7 => (format!(";{}", b), "semicolon"),
         8 => (format!("{}\n{}", b, r.pick(&BENIGN)), "linebreak"),
@@ -66,8 +72,8 @@ fn code_text(r: &mut Rng) -> (Option<String>, &'static str) {
     match r.below(12) {
         0 | 1 => (None, "none"),
         2..=6 => (Some(format!("2021103{}/{}/1", r.below(3), r.below(99))), "benign"),
-        7 => (Some(format!("A{})B", r.below(9))), "close_paren"),
-        8 => (Some("x (y) z".to_string()), "close_paren"),
+        7 => (Some(if r.chance(1, 2) { format!("A{})B", r.below(9)) } else { "x (y) z".to_string() }), "close_paren"),
+        8 => (Some(format!("REF {} / {}", r.below(99), r.below(9))), "benign"),
         9 => (Some(format!("line1\nline{}", r.below(9))), "linebreak"),
         10 => (Some(" padded ; semi ".to_string()), "semicolon"),
         _ => (Some(String::new()), "empty"),
@@ -76,8 +82,8 @@ fn code_text(r: &mut Rng) -> (Option<String>, &'static str) {
 
 fn commodity_text(r: &mut Rng, base: &str) -> (String, &'static str) {
     match r.below(25) {
-        0 => ("US D".to_string(), "bad_commodity"),
-        1 => ("C4".to_string(), "bad_commodity"),
+        0 => ((*r.pick(&["US D", "C4"])).to_string(), "bad_commodity"),
+        1 => ("Fr".to_string(), "benign"),
         2 => ("€".to_string(), "non_ascii"),
         3 => ("".to_string(), "empty"),
         4 => ("A;B".to_string(), "bad_commodity"),
@@ -250,7 +256,7 @@ fn gen_csv(r: &mut Rng, st: &mut Stats) -> Run {
                     st.count(&format!("text:commodity:{}", sctag));
                 }
                 let sc = if conv && (sc.is_empty() || sc == "CHF") { "EUR".to_string() } else { sc };
-                writeln!(t, "2021-10-{:02},{},{},{},{},{},{}", 1 + r.below(27), csv_field(&format!("Debit {} {}", *r.pick(&["1234", "A)B", "", "77"]), payee)),
+                writeln!(t, "2021-10-{:02},{},{},{},{},{},{}", 1 + r.below(27), csv_field(&format!("Debit {} {}", *r.pick(&["1234", "A)B", "", "77", "Z-9", "8/8", "x;y", "12"]), payee)),
                     csv_field(if credit { &a } else { "" }), csv_field(if credit { "" } else { &a }),
                     csv_field(&if conv { dec_text(r, true) } else { String::new() }), csv_field(&sc), csv_field(&if conv { format!("{}.{:04}", r.range(1, 200), r.below(10000)) } else { String::new() })).unwrap();
             }
